@@ -861,3 +861,17 @@ package gomatrixserverlib
 //@   property C12
 //@   ensures ed25519: result <==> hasPrefix(keyID, "ed25519:")
 //@   assigns nothing
+
+//@ func (*KeyRing).checkUsingKeys
+//@   property C12
+//@   requires len(results) == len(requests) && len(keyIDs) == len(requests)
+//@   requires forall a int :: 0 <= a && a < len(requests) ==> requests[a].ValidityCheckingFunc != nil
+//@   ensures accepted-by-key: forall a int :: 0 <= a && a < len(requests) ==> ((results[a].Error == nil) <==> (old(results[a].Error) == nil || someKeyAccepts(requests[a], keyIDs[a], keys)))
+//@   assigns results[*].Error
+//@   loop 1: invariant 0 <= idx(1) && idx(1) <= len(requests)
+//@   loop 1: invariant forall a int :: 0 <= a && a < idx(1) ==> ((results[a].Error == nil) <==> (old(results[a].Error) == nil || someKeyAccepts(requests[a], keyIDs[a], keys)))
+//@   loop 1: invariant forall a int :: idx(1) <= a && a < len(requests) ==> results[a].Error == old(results[a].Error)
+//@   loop 2: invariant 0 <= idx(2) && idx(2) <= len(keyIDs[i]) && results[i].Error != nil
+//@   loop 2: invariant forall b int :: 0 <= b && b < idx(2) ==> !keyAccepts(requests[i], keyIDs[i][b], keys)
+//@   loop 2: invariant forall a int :: 0 <= a && a < i ==> ((results[a].Error == nil) <==> (old(results[a].Error) == nil || someKeyAccepts(requests[a], keyIDs[a], keys)))
+//@   loop 2: invariant forall a int :: i < a && a < len(requests) ==> results[a].Error == old(results[a].Error)
